@@ -1,11 +1,13 @@
 """Small functions that exercise every construct and runtime function of py2lean; used only by py2lean_selftest.py
 (the translated Lean is run against CPython on random inputs).  Annotations are the selftest's source of Spec types."""
-from typing import Dict, List, Optional, Tuple
+from collections import deque
+from typing import Dict, List, NamedTuple, Optional, Set, Tuple
 
 SEP = '@'
 TWO = 'ab'
 LIMIT = 3
-SMALL_INTS = {'s_repeat', 's_ranges'}      # selftest: no huge ints for these (memory)
+SMALL_INTS = {'s_repeat', 's_ranges', 's_while', 's_recursion', 's_collatz', 's_fuel_call', 's_rec_out'}
+FUEL = 400           # selftest: the fuel handed to functions translated with explicit fuel
 
 
 class SampleError(Exception):
@@ -226,6 +228,237 @@ def s_unicode(s: str) -> List[str]:
     return out
 
 
+# ---- round 2: sets, dicts, out-parameters, fuel, narrowing, formatting, whitespace, sorting
+def s_set_ops(xs: List[int], ys: List[int], v: int) -> Tuple[Set[int], Set[int], Set[int], Set[int], List[bool], int, List[int]]:
+    a = set(xs)
+    b = {y for y in ys if y != 0}
+    c = set()
+    c.add(v)
+    c.update(ys)
+    c.add(v)
+    e = {v, 1, 1}
+    flags = [v in a, v not in b, a == b, a != set(xs + [v]), a <= c, a >= e, a.issubset(xs), a.isdisjoint(b),
+             bool(a), a.issuperset(e)]
+    return (a | b, a & b, a - b, a.union(ys).difference(e).intersection(c), flags, len(a) + len(c), sorted(a | e))
+
+
+def s_set_loop(xs: List[int], ys: List[int]) -> Tuple[Set[int], bool, int, Set[str]]:
+    src = set(xs)
+    keep = set(ys)
+    out = set()
+    strs = set()
+    for x in src:
+        if x in keep:
+            out.add(x)
+            continue
+        elif x > 0:
+            strs.update([str(x), 'p'])
+        out.add(-1)
+    return (out, any(x > 3 for x in src), sum(x for x in src if x < 50), strs)
+
+
+def s_dict_ops(ks: List[str], v: int, k: str) -> Tuple[Dict[str, int], List[Tuple[str, int]], List[str], List[int], Dict[str, int], Dict[int, str], int]:
+    d = {}
+    for i, x in enumerate(ks):
+        d[x] = i
+    d.setdefault(k, v)
+    d.setdefault('a', -1)
+    e = {x: len(x) for x in ks if x != k}
+    f = dict((n, s) for s, n in d.items())
+    g = {'a': 1, k: 2, 'a': 3}
+    d[k] = d[k] + g[k]
+    return (d, list(e.items()), list(d.keys()), list(d.values()), e, f, g['a'])
+
+
+def s_outparam(s: str, n: int, parts: List[str], m: List[int]) -> int:
+    parts.append(s)
+    m.extend([n] * len(s))
+    if n > 3:
+        m[0] = n
+        return len(m)
+    m.append(len(parts))
+    return n
+
+
+def s_outparam_none(x: int, seen: Set[int], d: Dict[int, int]) -> None:
+    seen.add(x)
+    d[x] = d.get(x, 0) + 1
+
+
+def s_call_outparam(xs: List[int], s: str) -> Tuple[List[str], List[int], int, Set[int], Dict[int, int]]:
+    parts: List[str] = []
+    m = [0]
+    seen = set()
+    d = {}
+    total = 0
+    for x in xs:
+        r = s_outparam(s, x, parts, m)
+        total += r
+        s_outparam_none(x, seen, d)
+        s_outparam(s, len(m), parts, m)
+    return (parts, m, total, seen, d)
+
+
+def s_while(n: int, xs: List[int]) -> Tuple[int, int]:
+    i = 0
+    acc = 0
+    while i < n:
+        i += 1
+        if i == 7:
+            continue
+        j = 0
+        while j < len(xs):
+            if xs[j] == 13:
+                break
+            acc += xs[j]
+            j += 1
+        if acc > 100:
+            break
+    return (i, acc)
+
+
+def s_collatz(n: int) -> int:
+    steps = 0
+    while n > 1:
+        if n % 2 == 0:
+            n = n // 2
+        else:
+            n = 3 * n + 1
+        steps += 1
+        if steps > 60:
+            return -1
+    return steps
+
+
+def s_recursion(n: int, xs: List[int]) -> int:
+    if n <= 0 or not xs:
+        return 0
+    return xs[0] + s_recursion(n - 1, xs[1:]) + s_recursion(n - 3, xs)
+
+
+def s_rec_out(n: int, out: List[int]) -> None:
+    if n > 0:
+        out.append(n)
+        s_rec_out(n - 2, out)
+        out.append(-n)
+
+
+def s_fuel_call(n: int) -> Tuple[int, List[int]]:
+    acc: List[int] = []
+    s_rec_out(n, acc)
+    return (s_collatz(n) + s_recursion(n, acc), acc)
+
+
+def s_queue(xs: List[int]) -> Tuple[List[int], int]:
+    agenda = deque(xs)
+    order: List[int] = []
+    stack = [0]
+    while agenda:
+        x = agenda.popleft()
+        order.append(x)
+        if x > 4 and x < 8:
+            agenda.extend([x - 3, x - 4])
+            stack.append(x)
+    top = stack.pop()
+    return (order, top + len(stack))
+
+
+def s_next_iter(xs: List[int], d: Dict[str, int]) -> Tuple[int, str]:
+    return (next(iter(xs)), next(iter(d)))
+
+
+def s_flow_narrow(o: Optional[int], xs: List[Optional[int]]) -> int:
+    if o is None:
+        return 0
+    total = o + 1
+    for x in xs:
+        if x is None:
+            continue
+        total += x
+        if total > 50:
+            break
+    return total
+
+
+def s_narrow_raise(o: Optional[str], n: int) -> str:
+    if n > 5:
+        if o is None:
+            raise SampleError('none')
+        return o + '!'
+    return 'small'
+
+
+def s_static_none(s: str, n: int) -> int:
+    if s is None:
+        return -1
+    return n if n is not None else 0
+
+
+def s_format(a: str, n: int) -> List[str]:
+    return ['<{}:{}>'.format(n, a), '{x}-{y}{{}}'.format(x=a, y=n), f'{a}{n}', f'{{{n + 1}}} {a}',
+            'plain'.format(), '{} {}'.format(a, a), f'']
+
+
+def s_split_ws(s: str) -> Tuple[List[str], str, str, str]:
+    return (s.split(), s.strip(), s.lstrip(), s.rstrip())
+
+
+def s_sorted(xs: List[int], ss: List[str]) -> Tuple[List[int], List[str], List[str], List[int], List[int]]:
+    return (sorted(xs), sorted(ss), sorted(ss, key=len), sorted(xs, key=abs), sorted(set(xs)))
+
+
+def s_str_order(a: str, b: str) -> List[bool]:
+    return [a < b, a <= b, a > b, a >= b]
+
+
+def s_any_all(xs: List[int], ss: List[str]) -> List[bool]:
+    return [any(x > 2 for x in xs), all(x > 2 for x in xs), any(xs), all(ss), any(s == 'a' for s in ss if s),
+            all(x in xs for x in [1, 2])]
+
+
+def s_comp2(xss: List[List[int]], ss: List[str]) -> Tuple[List[int], List[Tuple[str, str]], Set[int]]:
+    return ([x + 1 for xs in xss if xs for x in xs if x != 2], [(s, c) for s in ss for c in s],
+            {x for xs in xss for x in xs})
+
+
+def s_enum_start(xs: List[str], k: int) -> List[Tuple[int, str]]:
+    out: List[Tuple[int, str]] = []
+    for i, x in enumerate(xs, 1):
+        out.append((i, x))
+    return out + list(enumerate(xs, start=k))
+
+
+class SCount(NamedTuple):
+    gold: int
+    test: int
+
+    def add(self, other: 'SCount') -> 'SCount':
+        return SCount(self.gold + other.gold, self.test + other.test)
+
+
+class SPair(NamedTuple):
+    left: SCount
+    name: str
+
+    def add(self, other: 'SPair') -> 'SPair':
+        return SPair(self.left.add(other.left), name=self.name + other.name)
+
+
+def s_struct(a: SPair, b: SCount) -> SPair:
+    c = SPair(b, 'x').add(a)
+    return c.add(SPair(SCount(c.left.test, 1), a.name))
+
+
+def s_identity(xs: List[int]) -> List[int]:
+    return xs
+
+
+def s_outparam2(s: str, a: List[int], b: List[int]) -> int:
+    a.append(1)
+    b.append(2)
+    return len(s)
+
+
 # ---- functions the translator must REFUSE (py2lean.Unsupported); checked by the selftest
 def u_alias(xs: List[int]) -> List[int]:
     ys = [x for x in xs]
@@ -239,17 +472,6 @@ def u_alias_container(xs: List[int]) -> List[List[int]]:
     out = [ys]
     ys.append(1)
     return out
-
-
-def u_mutated_param(xs: List[int]) -> int:
-    xs.append(1)
-    return len(xs)
-
-
-def u_while(n: int) -> int:
-    while n > 0:
-        n -= 1
-    return n
 
 
 def u_try(xs: List[int]) -> int:
@@ -274,14 +496,6 @@ def u_inner_block(b: bool) -> int:
     return y
 
 
-def u_fstring(n: int) -> str:
-    return f'{n}'
-
-
-def u_format(n: int) -> str:
-    return '<{}>'.format(n)
-
-
 def u_float(n: int) -> int:
     return int(n / 2)
 
@@ -297,10 +511,6 @@ def u_lower(s: str) -> str:
     return s.lower()
 
 
-def u_split_ws(s: str) -> List[str]:
-    return s.split()
-
-
 def u_or_value(s: str, t: str) -> str:
     return s or t
 
@@ -309,15 +519,143 @@ def u_global_obj(s: str) -> int:
     return len(Dict)
 
 
-def u_flow_narrow(o: Optional[int]) -> int:
-    if o is None:
-        return 0
-    return o + 1
-
-
 def u_chained(a: int, b: int, c: int) -> bool:
     return a < b < c
 
 
 def u_surrogate(s: str) -> bool:
     return s == '\ud800'
+
+
+def u_alias_rebind(xs: List[int]) -> List[int]:
+    zs = xs
+    zs.append(1)
+    return xs
+
+
+def u_alias_call(xs: List[int]) -> List[int]:
+    ys = s_identity(xs)
+    ys.append(1)
+    return xs
+
+
+def u_return_outparam(xs: List[int]) -> List[int]:
+    xs.append(1)
+    return xs
+
+
+def u_outparam_twice(s: str) -> int:
+    m = [0]
+    s_outparam2(s, m, m)
+    return len(m)
+
+
+def u_outparam_in_expr(s: str) -> int:
+    m = [0]
+    parts: List[str] = []
+    return 1 + s_outparam(s, 2, parts, m)
+
+
+def u_outparam_rebound(xs: List[int]) -> None:
+    xs = xs + [1]
+    xs.append(2)
+
+
+def u_set_list(xs: List[int]) -> List[int]:
+    return list(set(xs))
+
+
+def u_set_loop_order(xs: List[int]) -> List[int]:
+    out: List[int] = []
+    for x in set(xs):
+        out.append(x)
+    return out
+
+
+def u_set_loop_dep(xs: List[int]) -> Set[int]:
+    out = set()
+    for x in set(xs):
+        if len(out) < 2:
+            out.add(x)
+    return out
+
+
+def u_set_join(xs: List[str]) -> str:
+    return ','.join(set(xs))
+
+
+def u_set_next(xs: List[int]) -> int:
+    return next(iter(set(xs)))
+
+
+def u_sorted_key_set(xs: List[str]) -> List[str]:
+    return sorted(set(xs), key=len)
+
+
+def u_set_of_lists(xss: List[List[int]]) -> int:
+    return len({xs for xs in xss})
+
+
+def u_dict_eq(a: Dict[str, int], b: Dict[str, int]) -> bool:
+    return a == b
+
+
+def u_list_of_sets_eq(xs: List[int]) -> bool:
+    return [set(xs)] == [set(xs)]
+
+
+def u_format_spec(n: int) -> str:
+    return '{:>3}'.format(n)
+
+
+def u_format_index(n: int) -> str:
+    return '{0}{0}'.format(n)
+
+
+def u_fstring_conv(s: str) -> str:
+    return f'{s!r}'
+
+
+def u_fstring_spec(n: int) -> str:
+    return f'{n:03d}'
+
+
+def u_format_bool(b: bool) -> str:
+    return '{}'.format(b)
+
+
+def u_any_raise(xs: List[int]) -> bool:
+    return any(xs[i] > 0 for i in range(3))
+
+
+def u_while_else(n: int) -> int:
+    while n > 0:
+        n -= 1
+    else:
+        n = 5
+    return n
+
+
+def u_comp3(xsss: List[List[List[int]]]) -> List[int]:
+    return [x for xss in xsss for xs in xss for x in xs]
+
+
+def u_sorted_tuples(xs: List[Tuple[int, int]]) -> List[Tuple[int, int]]:
+    return sorted(xs)
+
+
+def u_untyped_empty(n: int) -> int:
+    xs = []
+    return len(xs) + n
+
+
+def u_dict_store_shared(xs: List[int]) -> Dict[str, List[int]]:
+    d = {}
+    d['a'] = xs
+    return d
+
+
+def u_pop_index(xs: List[int], i: int) -> int:
+    ys = list(xs)
+    y = ys.pop(i)
+    return y
